@@ -180,6 +180,62 @@ def hyp_run(test_fn, strategy_kwargs: dict, seed: int, max_examples: int):
     wrapped()
 
 
+def hyp_fuzz_target(test_fn, strategy_kwargs):
+    """The Hypothesis property as a bytes -> None function (for coverage-guided fuzzing)."""
+    from hypothesis import HealthCheck, given, settings
+
+    st = settings(database=None, deadline=None, suppress_health_check=list(HealthCheck))
+    return st(given(**strategy_kwargs)(test_fn)).hypothesis.fuzz_one_input
+
+
+def atheris_tier(rec, pid, runs, seed, procs=8, max_len=64):
+    """Run vx.fuzz_atheris children; merge what they found into rec.  Returns False if atheris is unavailable."""
+    import subprocess
+    import tempfile
+
+    deps = os.path.join(VERIF, ".deps")
+    probe = subprocess.run([sys.executable, "-c", "import sys; sys.path.insert(0, %r); import atheris" % deps], capture_output=True)
+    if probe.returncode != 0:
+        rec.notes["atheris"] = "not installed: coverage-guided tier skipped"
+        return False
+    tmp = tempfile.mkdtemp(prefix="vx-atheris-")
+    children = []
+    for i in range(procs):
+        out = os.path.join(tmp, f"out{i}.jsonl")
+        env = dict(os.environ)
+        env["PYTHONHASHSEED"] = "0"
+        children.append((out, subprocess.Popen([sys.executable, "-m", "vx.fuzz_atheris", pid, str(runs), str(seed * 100 + i + 1), out, str(max_len)],
+                                               cwd=VERIF, env=env, stdout=subprocess.DEVNULL, stderr=subprocess.DEVNULL)))
+    execs = 0
+    herr = 0
+    for out, ch in children:
+        try:
+            ch.wait(timeout=3 * 3600)
+        except subprocess.TimeoutExpired:
+            ch.kill()
+        last = 0
+        if os.path.exists(out):
+            for line in open(out, encoding="utf-8"):
+                try:
+                    d = json.loads(line)
+                except ValueError:
+                    continue
+                if "executions" in d:
+                    last = d["executions"]
+                elif "harness_error" in d:
+                    herr += 1
+                else:
+                    rec.fail(d["sig"], d["case"], d["msg"] + " [found by the coverage-guided tier]")
+        execs += last
+    import shutil
+
+    shutil.rmtree(tmp, ignore_errors=True)
+    rec.classes["atheris-executions"] += execs
+    rec.evaluations += execs
+    rec.notes["atheris"] = f"{procs} libFuzzer processes x {runs} runs, {execs} executions counted, {herr} harness errors"
+    return True
+
+
 # ----------------------------------------------------------------------------
 # shrinking of plain-data cases (used after the campaign, on each new signature)
 # ----------------------------------------------------------------------------
